@@ -104,6 +104,8 @@ def do_check(mod, pid, modname, seed, args):
     if args.limit:
         n = min(n, args.limit)
     known = findings.load(os.path.join(ROOT, "known_findings.json"), pid)
+    if os.environ.get("VERIF_IGNORE_KNOWN"):
+        known = {}   # maintenance only: produce replay files for the listed findings (never used by registered commands)
     import glob
     for old in glob.glob(os.path.join(ROOT, "replays", f"{pid}-*.json")):
         os.remove(old)
